@@ -111,9 +111,13 @@ def cmd_run(sid, tier='quick', props=None, extra='', in_repo=False):
                 if in_repo:
                     sh('git -C /repo checkout -- .')
             viol = [l for l in o.splitlines() if l.startswith('VIOLATION')]
-            desc = [l.strip() for l in o.splitlines() if l.startswith('  ') and ('observed' in l or 'gives' in l or 'fails again' in l)][:2]
+            desc = [l.strip() for l in o.splitlines() if l.startswith('  ') and ('observed' in l or 'gives' in l or 'fails again' in l)][:6]
+            by_regress = [l for l in viol if '/regress/' in l]
+            by_search = [l for l in viol if '/regress/' not in l]
+            search_desc = [l for l in desc if 'regression plan' not in l]
             r = {'property': prop, 'tier': tier, 'cmd': '%s sim/check.py %s --tier %s %s' % (PY, prop, tier, extra), 'exit': rc,
-                 'violation_lines': len(viol), 'first': desc[:1], 'wall_s': round(time.time() - t0, 1),
+                 'violation_lines': len(viol), 'caught_by_seeded_search': len(by_search), 'caught_by_regression_plans': len(by_regress),
+                 'first': (search_desc or desc)[:1], 'wall_s': round(time.time() - t0, 1),
                  'caught': rc == 1 and bool(viol), 'tree': 'git -C /repo apply' if in_repo else 'scratch worktree of /repo HEAD + patch (VERIF_REPO)',
                  'repo_head': sh('git -C /repo rev-parse --short HEAD')[1].strip()}
             results.append(r)
